@@ -34,7 +34,7 @@ NOT_COVERED = ["Client.__init__ itself (that each stored option takes effect is 
                "non-key-addressed methods (stats, flush_all, quit, close, version, raw_command differ by design)"]
 BUDGET = {"quick": 30, "thorough": 120}
 FILTER_BY_PROPERTY = True
-DEPENDS = ["C17"]
+DEPENDS = ["C17", "C09", "C13"]
 
 
 def build(E, tier):
@@ -42,6 +42,7 @@ def build(E, tier):
     pm.verify_create_client(E)
     hm.verify_hash_single(E)
     hmany.verify_hash_ctor(E, "C16")
+    hmany.verify_ctor_defaults(E, "C16")
     hmany.verify_hash_many(E, prop="C16")
     hmany.verify_hash_delete_many(E, prop="C16")
 
